@@ -29,6 +29,7 @@ read and classified here.
 * `unreachableFromUntrusted r` — the code is not reachable from any C15 entry point.
 * `provedBy thm r` — safety rests on a mathematical fact `r`; `thm` names the Lean theorem.  **`thm` starting with
   `TODO:` means the fact is stated here precisely but not yet proved in Lean** (this table does not prove it).
+  (None at the time of writing: the five facts formerly owed are theorems of `Dalek/Props/C15/Facts.lean`.)
 * `unknown r` — no safety argument is known.  (None at the time of writing.)
 
 ## What the inventory does not see
@@ -657,7 +658,7 @@ def table : List Entry := [
       "h is the 64-byte output of a Digest<OutputSize = U64>; &h[..32] has length 32 = length of res"),
   site! "curve25519-dalek/src/edwards.rs" "EdwardsPoint::nonspec_map_to_curve"
     "expect" "E1_opt.expect(\"Montgomery conversion to Edwards point in Elligator failed\")" 1
-    (.provedBy "TODO:elligator_on_curve"
+    (.provedBy "Dalek.Props.C15.Facts.elligator_on_curve"
       "for every field element r and sign bit, elligator_encode(r).to_edwards(sign) is Some.  With g(u) = u^3 + A u^2 + u: (i) 1 + 2 r^2 != 0 because -1/2 is a non-residue mod p (2 is a non-residue, -1 a residue), so d = -A / (1 + 2 r^2) is a true quotient and d != 0; (ii) g(d) != 0 because A^2 - 4 is a non-residue; the output is u = d if g(d) is a square and u = -A - d otherwise, and g(-A - d) = 2 r^2 g(d) (for r = 0: u = 0), so g(u) is always a square; (iii) u != -1 because g(-1) = A - 2 is a non-residue, hence to_edwards does not take its early None; (iv) for u != -1 with g(u) a square, y = (u - 1) / (u + 1) is the y-coordinate of a curve point (birational equivalence), so CompressedEdwardsY::decompress returns Some"),
   site! "curve25519-dalek/src/edwards.rs" "<EdwardsPoint as MultiscalarMul>::multiscalar_mul"
     "assert_eq!" "assert_eq!(s_lo, p_lo)" 1
@@ -673,15 +674,15 @@ def table : List Entry := [
       "MultiscalarMul documents that both iterators must have equal, exact lengths; the arguments are caller-constructed iterators (not untrusted bytes) and no C15 entry point calls the constant-time multiscalar_mul"),
   site! "curve25519-dalek/src/edwards.rs" "<EdwardsPoint as VartimeMultiscalarMul>::optional_multiscalar_mul"
     "assert_eq!" "assert_eq!(s_lo, p_lo)" 1
-    (.provedBy "TODO:verify_batch_sizes_equal"
+    (.provedBy "Dalek.Props.C15.Facts.verify_batch_sizes_equal"
       "the only C15 entry point reaching this is verify_batch, which passes once(..).chain(zs.iter().cloned()).chain(zhrams) and B.chain(Rs).chain(As): Once/Chain/Cloned/Map/Zip over slice iterators have exact size hints (1 + 2n, Some(1 + 2n)) on both sides because signatures, messages and verifying_keys have equal lengths n (checked at entry, Err otherwise); for other callers this is the documented contract of VartimeMultiscalarMul (caller-constructed iterators)"),
   site! "curve25519-dalek/src/edwards.rs" "<EdwardsPoint as VartimeMultiscalarMul>::optional_multiscalar_mul"
     "assert_eq!" "assert_eq!(s_hi, Some(s_lo))" 1
-    (.provedBy "TODO:verify_batch_sizes_equal"
+    (.provedBy "Dalek.Props.C15.Facts.verify_batch_sizes_equal"
       "the only C15 entry point reaching this is verify_batch, which passes once(..).chain(zs.iter().cloned()).chain(zhrams) and B.chain(Rs).chain(As): Once/Chain/Cloned/Map/Zip over slice iterators have exact size hints (1 + 2n, Some(1 + 2n)) on both sides because signatures, messages and verifying_keys have equal lengths n (checked at entry, Err otherwise); for other callers this is the documented contract of VartimeMultiscalarMul (caller-constructed iterators)"),
   site! "curve25519-dalek/src/edwards.rs" "<EdwardsPoint as VartimeMultiscalarMul>::optional_multiscalar_mul"
     "assert_eq!" "assert_eq!(p_hi, Some(p_lo))" 1
-    (.provedBy "TODO:verify_batch_sizes_equal"
+    (.provedBy "Dalek.Props.C15.Facts.verify_batch_sizes_equal"
       "the only C15 entry point reaching this is verify_batch, which passes once(..).chain(zs.iter().cloned()).chain(zhrams) and B.chain(Rs).chain(As): Once/Chain/Cloned/Map/Zip over slice iterators have exact size hints (1 + 2n, Some(1 + 2n)) on both sides because signatures, messages and verifying_keys have equal lengths n (checked at entry, Err otherwise); for other callers this is the documented contract of VartimeMultiscalarMul (caller-constructed iterators)"),
   site! "curve25519-dalek/src/edwards.rs" "EdwardsPoint::mul_by_pow_2"
     "debug_assert!" "debug_assert!(k > 0)" 1
@@ -706,7 +707,7 @@ def table : List Entry := [
   -- -------------------- curve25519-dalek/src/field.rs
   site! "curve25519-dalek/src/field.rs" "FieldElement::batch_invert"
     "assert!" "assert!(bool::from(!acc.is_zero()))" 1
-    (.provedBy "TODO:batch_invert_acc_nonzero"
+    (.provedBy "Dalek.Props.C15.Facts.batch_invert_acc_nonzero"
       "acc is a product of the non-zero inputs only (zeros are skipped by conditional_assign) and F_p is a field, so acc != 0 for every input slice"),
   -- -------------------- curve25519-dalek/src/montgomery.rs
   site! "curve25519-dalek/src/montgomery.rs" "MontgomeryPoint::mul_bits_be"
@@ -825,7 +826,7 @@ def table : List Entry := [
       "inside `while pos < 256`, pos unchanged since the test; naf : [i8; 256]"),
   site! "curve25519-dalek/src/scalar.rs" "Scalar::as_radix_16"
     "debug_assert!" "debug_assert!(self[31] <= 127)" 1
-    (.provedBy "TODO:scalar_invariant_high_bit_clear"
+    (.provedBy "Dalek.Props.C15.Facts.scalar_invariant_high_bit_clear"
       "Scalar invariant #1: every constructor (from_canonical_bytes, from_bytes_mod_order[_wide], from_bits / clamp_integer, arithmetic results via pack()) yields bytes[31] <= 127; Scalar.bytes is pub(crate)"),
   site! "curve25519-dalek/src/scalar.rs" "Scalar::as_radix_16"
     "index" "output[2 * i]" 1
@@ -918,11 +919,11 @@ def table : List Entry := [
   -- -------------------- curve25519-dalek/src/traits.rs
   site! "curve25519-dalek/src/traits.rs" "VartimeMultiscalarMul::vartime_multiscalar_mul"
     "expect" "..._multiscalar_mul(scalars, points.into_iter().map(| P | Some(P.borrow().clone())),).expect(\"should return some point\")" 1
-    (.provedBy "TODO:optional_some_of_all_some"
+    (.provedBy "Dalek.Props.C15.Facts.optional_some_of_all_some"
       "every implementation of optional_[mixed_]multiscalar_mul (serial/vector Straus, Pippenger, precomputed Straus, the Edwards/Ristretto dispatchers) returns None only via `collect::<Option<Vec<_>>>()?` when some point is None; here every point is wrapped in Some"),
   site! "curve25519-dalek/src/traits.rs" "VartimePrecomputedMultiscalarMul::vartime_mixed_multiscalar_mul"
     "expect" "... dynamic_scalars, dynamic_points.into_iter().map(| P | Some(P.borrow().clone())),).expect(\"should return some point\")" 1
-    (.provedBy "TODO:optional_some_of_all_some"
+    (.provedBy "Dalek.Props.C15.Facts.optional_some_of_all_some"
       "every implementation of optional_[mixed_]multiscalar_mul (serial/vector Straus, Pippenger, precomputed Straus, the Edwards/Ristretto dispatchers) returns None only via `collect::<Option<Vec<_>>>()?` when some point is None; here every point is wrapped in Some"),
   -- -------------------- curve25519-dalek/src/window.rs
   site! "curve25519-dalek/src/window.rs" "macro_rules!impl_lookup_table::select"
